@@ -5,11 +5,13 @@ import (
 	"crypto/ecdsa"
 	"encoding/base64"
 	"encoding/json"
+	"flag"
 	"fmt"
 	ethkittypes "github.com/meshplus/eth-kit/types"
 	"math/big"
 	"math/rand"
 	"os"
+	"os/exec"
 	"path/filepath"
 	"sort"
 	"strings"
@@ -26,6 +28,7 @@ func init() {
 	workloads["mon09"] = func(a []string) int { return chainWorkload("C09", a) }
 	workloads["mon14"] = mon14Workload
 	workloads["mon07"] = mon07Workload
+	workloads["c12-rollback"] = c12Rollback
 }
 
 // ------------------------------------------------------------------------------------------
@@ -110,6 +113,29 @@ func chainWorkload(prop string, args []string) int {
 		chainCase(prop, w, a, id)
 	}
 	w.End()
+	return 0
+}
+
+// c12Rollback: child process that opens a replica and rolls its ledger back (to be killed by a hook on the way).
+func c12Rollback(args []string) int {
+	fs := flag.NewFlagSet("c12-rollback", flag.ExitOnError)
+	dir := fs.String("dir", "", "")
+	optsJSON := fs.String("opts", "{}", "")
+	to := fs.Uint64("to", 0, "")
+	fs.Parse(args)
+	var opts harness.Options
+	json.Unmarshal([]byte(*optsJSON), &opts)
+	opts.ReaderMon = false
+	r, err := harness.Open(*dir, opts)
+	if err != nil {
+		fmt.Println("open:", err)
+		return 4
+	}
+	if err := r.L.Rollback(*to); err != nil {
+		fmt.Println("rollback:", err)
+		return 5
+	}
+	r.Close()
 	return 0
 }
 
@@ -275,6 +301,41 @@ func chainCase(prop string, w *vlog.W, a *wargs, id int) {
 				t = t + 1
 			} else {
 				shape["rollback-direct"] = true
+				if prop == "C12" && head-t >= 2 && rng.Intn(2) == 0 {
+					// the node dies in the middle of the rollback (a separate process does it and is killed after the n-th
+					// block has been undone in the state store), is restarted, and is asked for the same rollback again:
+					// what must come out is the state of height t all the same
+					n := 1 + rng.Intn(int(head-t)-1)
+					world.R.Close()
+					ob, _ := json.Marshal(opts)
+					self := os.Getenv("VERIF_SELF")
+					if self == "" {
+						self, _ = os.Executable()
+					}
+					cmd := exec.Command(self, "c12-rollback", "-dir", dir, "-opts", string(ob), "-to", fmt.Sprint(t))
+					cmd.Env = append(os.Environ(), fmt.Sprintf("VERIF_HOOKS=state.rollback.after_block=kill:%d", n))
+					out, cerr := cmd.CombinedOutput()
+					if cerr == nil {
+						w.Count("rollback_kill_hook_not_reached", 1)
+					} else if !strings.Contains(cerr.Error(), "killed") {
+						viol(prop, "rollback:child-error", fmt.Sprintf("Rollback(%d) at height %d in a child process: %v %s", t, head, cerr, tail(string(out), 300)))
+						return
+					} else {
+						w.Count("rollbacks_interrupted_by_a_kill", 1)
+						shape["rollback-interrupted-by-kill"] = true
+					}
+					r2, err := harness.Open(dir, opts)
+					if err != nil {
+						viol(prop, "rollback:reopen-error-after-kill", fmt.Sprintf("node killed after %d of %d blocks of Rollback(%d) had been undone in the state store does not open again: %v", n, head-t, t, err))
+						return
+					}
+					world.R = r2
+					if x := world.R.Height(); x < t || x > head {
+						viol(prop, "rollback:height-after-kill", fmt.Sprintf("node killed during Rollback(%d) at height %d opens at height %d", t, head, x))
+						return
+					}
+					w.SetAdd("heights_after_interrupted_rollback", fmt.Sprintf("head-%d", head-world.R.Height()))
+				}
 				w.Step(fmt.Sprintf("Ledger.Rollback(%d) at height %d", t, head))
 				if err := world.R.L.Rollback(t); err != nil {
 					viol(prop, "rollback:error", fmt.Sprintf("Rollback(%d) at height %d: %v", t, head, err))
@@ -465,6 +526,58 @@ func mon14Workload(args []string) int {
 				_ = poorAdm
 				shape["scripted:deciding-approval-cannot-pay"] = true
 			}
+			// every sixth case (two admins or more): the life of an audit admin - an nvp node is registered, an audit admin
+			// bound to it is registered and approved (the one documented grant), a second node is registered, the first
+			// node logs out (the admin is paused), the admin is bound to the second node and that is approved: an admin
+			// who comes back is not "newly approved", nothing may be granted again
+			var scriptF []func() []pb.Transaction
+			var lastRes *harness.BlockResult
+			if id%6 == 4 && nAdmins >= 2 && script == nil {
+				cand := harness.DetKey("new-admin-1")
+				adm0 := harness.AdminKey(0)
+				node1, node2 := harness.DetKey("c14-node-1").Addr.String(), harness.DetKey("c14-node-2").Addr.String()
+				approvals := func() []pb.Transaction {
+					if lastRes == nil || len(lastRes.Receipts) == 0 || lastRes.Receipts[0].Status != pb.Receipt_SUCCESS {
+						return nil
+					}
+					pid := harness.ProposalID(lastRes.Receipts[0])
+					if pid == "" {
+						return nil
+					}
+					var out []pb.Transaction
+					for i := 1; i < nAdmins; i++ {
+						out = append(out, world.BVM(harness.AdminKey(i), harness.AddrGov, "Vote", pb.String(pid), pb.String("approve"), pb.String("r")))
+					}
+					return out
+				}
+				one := func(tx pb.Transaction) func() []pb.Transaction {
+					return func() []pb.Transaction { return []pb.Transaction{tx} }
+				}
+				regNode := func(n, name string) func() []pb.Transaction {
+					return func() []pb.Transaction {
+						return []pb.Transaction{world.BVM(adm0, harness.AddrNode, "RegisterNode", pb.String(n), pb.String("nvpNode"), pb.String(""), pb.Uint64(0), pb.String(name), pb.String(harness.ChainA), pb.String("r"))}
+					}
+				}
+				scriptF = []func() []pb.Transaction{
+					one(world.Transfer(harness.User(0), cand.Addr, "1")),
+					regNode(node1, "c14-nvp-1"), approvals,
+					func() []pb.Transaction {
+						return []pb.Transaction{world.BVM(adm0, harness.AddrRole, "RegisterRole", pb.String(cand.Addr.String()), pb.String("auditAdmin"), pb.String(node1), pb.String("r"))}
+					}, approvals,
+					regNode(node2, "c14-nvp-2"), approvals,
+					func() []pb.Transaction {
+						return []pb.Transaction{world.BVM(adm0, harness.AddrNode, "LogoutNode", pb.String(node1), pb.String("r"))}
+					}, approvals,
+					func() []pb.Transaction {
+						return []pb.Transaction{world.BVM(adm0, harness.AddrRole, "BindRole", pb.String(cand.Addr.String()), pb.String(node2), pb.String("r"))}
+					}, approvals,
+					func() []pb.Transaction {
+						w.SetAdd("scripted_audit_admin_final_status", roleStatus(cand.Addr.String()))
+						return nil
+					},
+				}
+				shape["scripted:audit-admin-bound-again"] = true
+			}
 			for b := 0; b < nBlocks; b++ {
 				pre := balances(world.R)
 				preRole := map[string]string{}
@@ -500,6 +613,11 @@ func mon14Workload(args []string) int {
 					}
 					if len(script[b]) > 0 {
 						txs, scripted, single = script[b], true, false
+					}
+				}
+				if !scripted && b < len(scriptF) {
+					if t := scriptF[b](); len(t) > 0 {
+						txs, scripted, single = t, true, false
 					}
 				}
 				if scripted {
@@ -554,10 +672,14 @@ func mon14Workload(args []string) int {
 				}
 				g.absorb(txs, res)
 				absorbDeploys(g, txs, res)
-				if scripted && b == 1 && res.Receipts[0].Status == pb.Receipt_SUCCESS {
+				lastRes = res
+				if scriptF != nil && scripted && b < len(scriptF) {
+					w.SetAdd("scripted_audit_admin_steps", fmt.Sprintf("step %d: %v %.40s", b, res.Receipts[0].Status, string(res.Receipts[0].Ret)))
+				}
+				if script != nil && scripted && b == 1 && res.Receipts[0].Status == pb.Receipt_SUCCESS {
 					scriptPid = harness.ProposalID(res.Receipts[0])
 				}
-				if scripted && b == 4 {
+				if script != nil && scripted && b == 4 {
 					shape["scripted:deciding-vote:"+res.Receipts[0].Status.String()] = true
 					w.SetAdd("scripted_deciding_vote_outcomes", fmt.Sprintf("%v %.60s", res.Receipts[0].Status, string(res.Receipts[0].Ret)))
 				}
